@@ -26,7 +26,10 @@ class IncarnationFailure(Exception):
     """The incarnation did not deliver a report (hang, crash of the interpreter)."""
 
 
-def run_incarnation(plan: dict, hashseed: int, timeout_s: int = 600, xla_cache: str | None = None) -> dict:
+def run_incarnation(plan: dict, hashseed: int, timeout_s: int = 600, xla_cache: str | None = None, disk: str | None = None) -> dict:
+    """``disk``: the simulated durable file system of the session (home directory, temp directory and
+    working directory of the interpreter): whatever the code under test writes there survives a restart,
+    nothing else does; it is created empty for every session."""
     d = tempfile.mkdtemp(prefix="inc-", dir=scratch_root())
     try:
         plan = dict(plan)
@@ -37,7 +40,7 @@ def run_incarnation(plan: dict, hashseed: int, timeout_s: int = 600, xla_cache: 
             pickle.dump(plan, fh, protocol=4)
         env = {
             "PATH": os.environ.get("PATH", "/usr/bin:/bin"),
-            "HOME": os.environ.get("HOME", "/root"),
+            "HOME": os.path.join(disk, "home") if disk else os.environ.get("HOME", "/root"),
             "PYTHONHASHSEED": str(hashseed),
             "PYTHONPATH": plan["lcm_src"],
             "JAX_PLATFORMS": "cpu",
@@ -51,6 +54,10 @@ def run_incarnation(plan: dict, hashseed: int, timeout_s: int = 600, xla_cache: 
         }
         # XLA executables compiled earlier in the same session (lcm wraps new jax.jit objects around identical
         # computations in every call and period) are re-used across the incarnations of the session
+        if disk:
+            for sub in ("home", "tmp", "cwd"):
+                os.makedirs(os.path.join(disk, sub), exist_ok=True)
+            env["TMPDIR"] = os.path.join(disk, "tmp")
         cc = xla_cache if os.environ.get("DSIM_XLA_CACHE", "on") != "off" else None
         if cc:
             env.update({"JAX_COMPILATION_CACHE_DIR": cc, "JAX_PERSISTENT_CACHE_MIN_COMPILE_TIME_SECS": "0", "JAX_PERSISTENT_CACHE_MIN_ENTRY_SIZE_BYTES": "0"})
@@ -67,7 +74,7 @@ def run_incarnation(plan: dict, hashseed: int, timeout_s: int = 600, xla_cache: 
                     stderr=subprocess.STDOUT,
                     timeout=timeout_s,
                     check=False,
-                    cwd=d,
+                    cwd=os.path.join(disk, "cwd") if disk else d,
                 )
                 rc = cp.returncode
             except subprocess.TimeoutExpired:
